@@ -56,10 +56,20 @@ OBJECTS = {
            "printTrajectoryFrequency": "0"}),
  "opesadapt": ("opes_metad {\n name b\n colvars r\n newHillFrequency 2\n barrier 5.0\n adaptiveSigma on\n adaptiveSigmaStride %(adaptiveSigmaStride)s\n gaussianSigmaMin %(gaussianSigmaMin)s\n}\n",
                {"adaptiveSigmaStride": "4", "gaussianSigmaMin": "0.01"}),
+ # a variable's grid parameters as seen by the biases that allocate a grid on it (sizes are derived from (upper - lower) / width)
+ "abfgrid": ("colvar {\n name q\n width %(width)s\n lowerBoundary %(lowerBoundary)s\n upperBoundary %(upperBoundary)s\n"
+             " distanceZ {\n  main { atomNumbers 1 }\n  ref { dummyAtom (0.0, 0.0, 0.0) }\n  axis (0.0, 0.0, 1.0)\n  oneSiteTotalForce on\n }\n}\n"
+             "abf {\n name b\n colvars q\n fullSamples 4\n outputFreq 4\n}\n",
+             {"width": "0.5", "lowerBoundary": "-3.0", "upperBoundary": "3.0"}),
+ "metagrid": ("colvar {\n name q\n width %(width)s\n lowerBoundary %(lowerBoundary)s\n upperBoundary %(upperBoundary)s\n"
+              " distanceZ {\n  main { atomNumbers 1 }\n  ref { dummyAtom (0.0, 0.0, 0.0) }\n  axis (0.0, 0.0, 1.0)\n }\n}\n"
+              "metadynamics {\n name b\n colvars q\n hillWeight 0.1\n hillWidth 2.0\n newHillFrequency 2\n outputFreq 4\n}\n",
+              {"width": "0.5", "lowerBoundary": "-3.0", "upperBoundary": "3.0"}),
  "module": ("colvarsTrajFrequency %(colvarsTrajFrequency)s\ncolvarsRestartFrequency %(colvarsRestartFrequency)s\n", {"colvarsTrajFrequency": "2", "colvarsRestartFrequency": "4"}),
 }
 VALUES = ["0", "-1", "1", "2147483648", "4294967296", "1e308", "nan", "inf", "-inf", "1e-300", "", "-2147483649", "0.5",
-          "2305843009213693952", "9223372036854775808", "18446744073709551615"]      # 2^61 (times 8 wraps to 0), 2^63, 2^64 - 1
+          "2305843009213693952", "9223372036854775808", "18446744073709551615",
+          "13"]                                                                          # a width of more than twice the interval: a grid of 0 points      # 2^61 (times 8 wraps to 0), 2^63, 2^64 - 1
 
 
 def make_case(obj, key, val, seed_steps):
@@ -283,7 +293,7 @@ def extra(rep, tier, rng):
                 jobs.append((obj, key, val))
     if tier == "quick":
         # every (object, keyword) with the three most dangerous values, plus a seeded sample of the rest
-        core = [j for j in jobs if j[2] in ("0", "-1", "2147483648", "nan", "1e308", "2305843009213693952")]
+        core = [j for j in jobs if j[2] in ("0", "-1", "2147483648", "nan", "1e308", "2305843009213693952", "13")]
         rest = [j for j in jobs if j not in core]
         rng.shuffle(rest)
         jobs = core + rest[:150]
